@@ -17,16 +17,25 @@ def run_job(job):
 
     mdlib.use_stub(False)
     common.quiet_stdio()
+    scf_driver.install_capture()
     params = mdlib.seqm_params(**job.get("params", {}))
     mol = scf_driver.make(job["mols"], params, displace=0.1)
     mol.verbose = False
     es = Electronic_Structure(params)
     kw = {}
     es(mol)
+    emo_first = mol.e_mo.detach().clone()
+    dip_first = mol.dipole.detach().clone() if getattr(mol, "dipole", None) is not None else None
     snap = {a: (id(getattr(mol, a, None)), getattr(mol, a).detach().clone() if torch.is_tensor(getattr(mol, a, None)) else None) for a in ATTRS}
     with torch.no_grad():
-        g = torch.Generator().manual_seed(5)
-        mol.coordinates.add_(0.03 * (torch.rand(mol.coordinates.shape, generator=g, dtype=torch.float64) - 0.5) * (mol.species > 0).unsqueeze(-1))
+        if job.get("second") == "rotate":
+            # same object evaluated at a geometry turned by 90 degrees about z (frontier-orbital character order may change)
+            x = mol.coordinates.clone()
+            mol.coordinates[..., 0] = -x[..., 1]
+            mol.coordinates[..., 1] = x[..., 0]
+        else:
+            g = torch.Generator().manual_seed(5)
+            mol.coordinates.add_(0.03 * (torch.rand(mol.coordinates.shape, generator=g, dtype=torch.float64) - 0.5) * (mol.species > 0).unsqueeze(-1))
     if job["path"] == "xl":
         es(mol, P0=mol.dm.clone(), dm_prop="XL-BOMD", xl_bomd_params={"k": 5})
     else:
@@ -38,6 +47,20 @@ def run_job(job):
             continue
         if id(v) != snap[a][0] or snap[a][1] is None or v.shape != snap[a][1].shape or not torch.equal(v.detach(), snap[a][1]):
             fresh.append(a)
+    # third call: the whole geometry translated by (1, 2, -3) Angstrom; only the dipole is read from it
+    snapshot = {a: getattr(mol, a) for a in ATTRS}
+    nocc_s, active_s = mol.nocc, mol.active_state
+    dip1 = mol.dipole.detach().clone() if mol.dipole is not None else None
+    dshift = None
+    if dip1 is not None and job["path"] != "xl":
+        import copy
+
+        mol3 = scf_driver.make(job["mols"], dict(params), displace=0.1)
+        mol3.verbose = False
+        with torch.no_grad():
+            mol3.coordinates.copy_(mol.coordinates.detach() + torch.tensor([1.0, 2.0, -3.0], dtype=torch.float64) * (mol.species > 0).unsqueeze(-1))
+        Electronic_Structure(params)(mol3)
+        dshift = (mol3.dipole.detach() - dip1)
     recs = []
     tore = mol.const.tore
     act = mol.active_state
@@ -62,10 +85,30 @@ def run_job(job):
             gap = [fx(mol.e_gap[m])]
             dsum = mol.dm[m].diagonal()
         dp = [fx(dsum[4 * i : 4 * i + 4].sum()) for i in range(n)]
+        emo0 = [[fx(x) for x in emo_first[m, s, :norb]] for s in (0, 1)] if uhf else [[fx(x) for x in emo_first[m, :norb]]]
+        # residual of the published (orbital, energy) pairs against the Fock matrix the solver returned
+        eigres = []
+        if job["path"] != "xl":
+            from seqm.seqm_functions.pack import pack
+
+            F = scf_driver._last["F"][m]
+            for s in range(2 if uhf else 1):
+                Fs = pack((F[s] if uhf else F).unsqueeze(0), mol.nHeavy[m : m + 1], mol.nHydro[m : m + 1])[0][:norb, :norb]
+                Fs = Fs.triu() + Fs.triu(1).T
+                C = (mol.molecular_orbitals[m, s] if uhf else mol.molecular_orbitals[m])[:norb, :norb]
+                e = (mol.e_mo[m, s] if uhf else mol.e_mo[m])[:norb]
+                res = (Fs @ C - C * e.unsqueeze(0)).abs().max(dim=0).values
+                nrm = (C * C).sum(dim=0)
+                eigres.append([fx(x) + fx(abs(float(y) - 1.0)) for x, y in zip(res, nrm)])
         recs.append({
             "id": f"{job['id']}/{m}", "path": job["path"], "fresh": fresh,
             "Etot": fx(mol.Etot[m]), "Eelec": fx(mol.Eelec[m]), "Enuc": fx(mol.Enuc[m]), "Eexc": eexc, "Hf": fx(mol.Hf[m]), "Eiso": fx(mol.Eiso[m]),
             "Z": Z, "gap": gap, "homo": homo, "lumo": lumo, "emo": emo, "q": [fx(x) for x in mol.q[m, :n]], "core": [int(tore[z]) for z in Z], "dp": dp,
+            "dshift": [fx(x) for x in dshift[m]] if dshift is not None else [int(mol.tot_charge[m]) * k * 1889851 for k in (1, 2, -3)],
+            "emo0": emo0, "nocc": nocc if uhf else [nocc], "tracked": not uhf, "eigres": eigres,
+            "rot": job.get("second") == "rotate" and dip_first is not None,
+            "dip": [fx(x) for x in mol.dipole[m]] if mol.dipole is not None else [0, 0, 0],
+            "dip0": [fx(x) for x in dip_first[m]] if dip_first is not None else [0, 0, 0],
             "charge": int(mol.tot_charge[m]), "nel": int(sum(int(tore[z]) for z in Z) - int(mol.tot_charge[m])),
         })
     return recs
